@@ -681,6 +681,10 @@ def one(F, S, b, p, s, envs):
         return None
     (bb, path, args, cj) = call
     a = [pn(S, x) for x in args]
+    if s.kind == "call" and s.what in ("split_at", "split_at_mut") and len(a) == 2:
+        # x.split_at(k) panics iff k > len(x): the same obligation as x[..k]
+        a = [a[0], ("agg", "adt:core::ops::RangeTo::RangeTo", (a[1],))]
+        s = Site(s.body, s.bb, "index", "index", s.term)
     if s.kind == "index":
         base = a[0]
         rng = a[1]
